@@ -457,22 +457,59 @@ func clRun(cfg *config, toks []string) string {
 	case "gopro.render":
 		args = append(args, "absent.mp4", "out.png")
 	}
-	c := exec.Command(bin, args...)
-	c.Dir = cwd
-	c.Env = []string{"HOME=" + home, "PATH=/usr/bin:/bin", "NO_COLOR=1"}
-	if cmdName == "convert" && iomode[0] == 's' {
-		c.Stdin = bytes.NewReader(input)
-	}
 	var stdout, stderr bytes.Buffer
-	c.Stdout, c.Stderr = &stdout, &stderr
-	done := make(chan error, 1)
-	go func() { done <- c.Run() }()
 	var runErr error
-	select {
-	case runErr = <-done:
-	case <-time.After(20 * time.Second):
-		c.Process.Kill()
+	run := func() bool {
+		stdout.Reset()
+		stderr.Reset()
+		c := exec.Command(bin, args...)
+		c.Dir = cwd
+		c.Env = []string{"HOME=" + home, "PATH=/usr/bin:/bin", "NO_COLOR=1"}
+		if cmdName == "convert" && iomode[0] == 's' {
+			c.Stdin = bytes.NewReader(input)
+		}
+		c.Stdout, c.Stderr = &stdout, &stderr
+		done := make(chan error, 1)
+		go func() { done <- c.Run() }()
+		select {
+		case runErr = <-done:
+			return true
+		case <-time.After(20 * time.Second):
+			c.Process.Kill()
+			return false
+		}
+	}
+	if !run() {
 		return "hang"
+	}
+	if cmdName == "gopro.laptimes" {
+		// second pass: now that the binary has said which start line is in effect, add readings placed
+		// relative to that line (along it, beyond its ends, beside it at half and one-and-a-half
+		// tolerances, and mirrored in the start point's meridian) and run again
+		if obs1, ok := clObserved(stderr.String()); ok {
+			num := func(p string) float64 {
+				_, v, _ := clGet(obs1, p)
+				b, _ := strconv.ParseUint(v, 16, 64)
+				return math.Float64frombits(b)
+			}
+			lat, lon, brg, dist, tol := num("Start.Latitude"), num("Start.Longitude"), num("Start.Bearing"), num("Start.Distance"), num("Tolerance")
+			if math.Abs(lat) < 80 && math.Abs(lon) < 170 && dist > 0 && dist < 1000 && tol >= 0 && tol < 100 {
+				for _, fr := range []float64{0.35, -0.7, 0.9, 1.3, -1.6} {
+					var pla, plo float64
+					geodesic.WGS84.Direct(lat, lon, brg+90, fr*dist, &pla, &plo, nil)
+					points = append(points, [2]float64{pla, plo}, [2]float64{pla, 2*lon - plo})
+					for _, side := range []float64{0.5, 1.5} {
+						var qla, qlo float64
+						geodesic.WGS84.Direct(pla, plo, brg, side*tol+0.02, &qla, &qlo, nil)
+						points = append(points, [2]float64{qla, qlo})
+					}
+				}
+				os.WriteFile(filepath.Join(cwd, "in.mp4"), clGPSFile(points), 0o644)
+				if !run() {
+					return "hang"
+				}
+			}
+		}
 	}
 	exit := 0
 	if runErr != nil {
@@ -760,6 +797,22 @@ func genCL(cfg *config, r *rng, i int, s *sink) string {
 				laf, _ := strconv.ParseFloat(la, 64)
 				lof, _ := strconv.ParseFloat(lo, 64)
 				pts = append(pts, fmt.Sprintf("%.7f,%.7f", laf, lof), fmt.Sprintf("%.7f,%.7f", laf+0.0000004, lof))
+				// readings along the start line itself, away from its centre, and their mirror images in
+				// the start point's meridian (for an oblique bearing those are off the line)
+				for _, kv2 := range append(clParseKVs(f), clParseKVs(c)...) {
+					if !strings.HasSuffix(kv2.key, "bearing") {
+						continue
+					}
+					brg, err := strconv.ParseFloat(unhexStr(kv2.val), 64)
+					if err != nil {
+						continue
+					}
+					for _, d := range []float64{3, -4, 8} {
+						var pla, plo float64
+						geodesic.WGS84.Direct(laf, lof, brg+90, d, &pla, &plo, nil)
+						pts = append(pts, fmt.Sprintf("%.7f,%.7f", pla, plo), fmt.Sprintf("%.7f,%.7f", pla, 2*lof-plo))
+					}
+				}
 			}
 		}
 		in = hexStr(strings.Join(pts, ";"))
